@@ -142,6 +142,9 @@ func plan(cfg genConfig) (map[string]*Database, []caseSpec) {
 		for _, q := range lq {
 			for _, w := range ws[:3] {
 				for _, lim := range []int64{1, 2, 20} {
+					if lim == 20 && !cfg.thorough {
+						continue // never reached on <= 3 traces: the window start cannot move (thorough keeps it as a control)
+					}
 					add("portions", q, d, w, lim, "complex2", "search")
 				}
 			}
